@@ -162,6 +162,8 @@ impl<'a> Value<'a> {
         if let Value::Str(ArenaCow::Owned(s)) = self {
             let ptr = s.as_bytes().as_ptr();
             if pool.contains(ptr) {
+                #[cfg(feature = "verif-hooks")]
+                crate::verif_hooks::trace(|t| t.pool_returns += 1);
                 unsafe {
                     pool.dealloc(
                         std::ptr::NonNull::new_unchecked(ptr.cast_mut()),
@@ -495,6 +497,8 @@ impl<'a> Runtime<'a> {
                     }
 
                     if let Some(offset) = frame_offset {
+                        #[cfg(feature = "verif-hooks")]
+                        crate::verif_hooks::trace(|t| t.frame_resets += 1);
                         unsafe { self.frame.reset(offset) };
                     }
                 }
@@ -529,8 +533,12 @@ impl<'a> Runtime<'a> {
                         .checked_add(1)
                         .expect("Skipped statement count should stay within u32");
                 }
+                #[cfg(feature = "verif-hooks")]
+                crate::verif_hooks::trace(|t| t.stmts_skipped += 1);
                 continue;
             }
+            #[cfg(feature = "verif-hooks")]
+            crate::verif_hooks::stmt_executed(self.bound_stmt_id(stmt).map(|id| id.0));
             match self.exec_stmt(stmt)? {
                 ExecFlow::Continue => {}
                 flow @ (ExecFlow::Return(..) | ExecFlow::Break | ExecFlow::LoopContinue) => {
@@ -560,6 +568,8 @@ impl<'a> Runtime<'a> {
         if let Some(function_id) = id
             && self.function_is_pruned(function_id)
         {
+            #[cfg(feature = "verif-hooks")]
+            crate::verif_hooks::trace(|t| t.functions_skipped += 1);
             return;
         }
 
@@ -1544,6 +1554,8 @@ impl<'a> Runtime<'a> {
     /// then reconstructed on the caller's frame level, so the staging is
     /// reclaimed and the return value arrives on frame.
     fn relocate_return_value(&self, val: Value<'a>, frame_offset: usize) -> Value<'a> {
+        #[cfg(feature = "verif-hooks")]
+        crate::verif_hooks::trace(|t| t.frame_resets += 1);
         let is_frame_string = match &val {
             Value::Str(ArenaCow::Owned(s)) => !std::ptr::eq(s.arena(), self.arena),
             _ => false,
